@@ -49,14 +49,66 @@ fn run_one(ctx: &Ctx, gf: &Gf, rel: &Relations, K: usize, T: usize, route: usize
     Some(enc)
 }
 
+/// Object-level construction: `Encoder::new` generates one plan and reuses it for consecutive
+/// blocks of equal size; blocks of KL = KS + 1 and KS symbols straddle a Table-2 row exactly when
+/// KS is a table value. Every block's intermediate symbols are certified.
+fn run_object(ctx: &Ctx, gf: &Gf, kp: usize, Z: usize, n_obj: &AtomicU64) {
+    use raptorq::Encoder;
+    let T = 2usize;
+    // Kt = Z*kp + (Z-1): Z-1 blocks of kp+1 symbols followed by one of kp  (KL = kp+1, KS = kp)
+    let kt = Z * kp + (Z - 1);
+    let f = kt * T - 1;
+    let mut rng = Rng::derive(ctx.seed(), 66, (kp * 8 + Z) as u64);
+    let data = rng.bytes(f);
+    let cfg = Oti::new(f as u64, T as u16, Z as u8, 1, 1);
+    let case = || J::obj(vec![("object", J::B(true)), ("Kp", J::i(kp)), ("Z", J::i(Z))]);
+    let enc = match guarded(|| Encoder::new(&data, cfg)) {
+        Ok(e) => e,
+        Err(m) => {
+            ctx.violation(format!("C06 object-build K'={kp} Z={Z}"), format!("Encoder::new for an object of {kt} symbols in {Z} blocks ({} blocks of {} symbols, then {} of {kp}) failed: {}", Z - 1, kp + 1, 1, short(&m, 120)), case());
+            return;
+        }
+    };
+    let mut off = 0usize;
+    for (z, be) in enc.get_block_encoders().iter().enumerate() {
+        let K = if z < Z - 1 { kp + 1 } else { kp };
+        let mut block = vec![0u8; K * T];
+        for i in 0..K * T {
+            if off + i < f {
+                block[i] = data[off + i];
+            }
+        }
+        off += K * T;
+        let rel = Relations::new(gf, K);
+        if be.verif_num_intermediate_symbols() != rel.p.L {
+            ctx.violation(format!("C06 object-L K'={kp} Z={Z} z={z}"), format!("object with blocks of {} / {kp} symbols: block {z} (K={K}) holds {} intermediate symbols, L={}", kp + 1, be.verif_num_intermediate_symbols(), rel.p.L), case());
+            return;
+        }
+        let c = |i: usize| be.verif_intermediate_symbol(i);
+        let src = |i: usize| &block[i * T..(i + 1) * T];
+        if let Err(e) = certify(gf, &rel, K, T, &c, &src) {
+            ctx.violation(format!("C06 object-constraints K'={kp} Z={Z} z={z}"), format!("object with blocks of {} / {kp} symbols built by Encoder::new: block {z} (K={K}): {e}", kp + 1), case());
+            return;
+        }
+    }
+    n_obj.fetch_add(1, Relaxed);
+    ctx.nontrivial((kp as u64) << 8 | 0x80 | Z as u64);
+}
+
 pub fn run(ctx: &Ctx) -> i32 {
     let gf = Gf::new();
     let counts: [AtomicU64; 6] = Default::default();
     if let Some(pth) = &ctx.args.replay {
         let j = parse_json(&std::fs::read_to_string(pth).expect("replay file")).expect("json");
         let c = j.get("case").unwrap();
-        let K = c.u("K") as usize;
         ctx.eval(1);
+        if c.get("object").is_some() {
+            run_object(ctx, &gf, c.u("Kp") as usize, c.u("Z") as usize, &AtomicU64::new(0));
+            ctx.nontrivial(1);
+            ctx.nontrivial(2);
+            return ctx.finish("replay of one recorded object construction", &[], vec![]);
+        }
+        let K = c.u("K") as usize;
         run_one(ctx, &gf, &Relations::new(&gf, K), K, c.u("T") as usize, c.u("route") as usize, c.u("data_seed"), &counts);
         ctx.nontrivial(1);
         ctx.nontrivial(2);
@@ -122,6 +174,19 @@ pub fn run(ctx: &Ctx) -> i32 {
             raptorq::verif::verif_cache::clear();
         }
     });
+    // object-level route: every table size up to the bound as KS with KL = KS + 1
+    let n_obj = AtomicU64::new(0);
+    let obj_max = ctx.args.ex_u64("object_max", ctx.args.pick(3000, 20000)) as usize;
+    let obj_rows: Vec<usize> = rows.iter().copied().filter(|&k| k <= obj_max).collect();
+    par_for(obj_rows.len(), |i| {
+        let kp = obj_rows[i];
+        run_object(ctx, &gf, kp, 2 + i % 2, &n_obj);
+        ctx.eval(1);
+        if i % 20 == 0 {
+            raptorq::verif::verif_cache::clear();
+        }
+    });
+    ctx.cov("objects_built_by_Encoder_new_with_blocks_straddling_a_table_row", J::i(n_obj.load(Relaxed)));
     let done = kp_done.lock().unwrap().len();
     ctx.cov("K'_values_encodable_and_certified_on_the_default_route", J::i(done));
     ctx.cov("routes", J::O(ROUTES.iter().enumerate().map(|(i, r)| (r.to_string(), J::i(counts[i].load(Relaxed)))).collect()));
@@ -135,7 +200,7 @@ pub fn run(ctx: &Ctx) -> i32 {
         ctx.floor("constructions_via_plan_replay", counts[1].load(Relaxed) + counts[4].load(Relaxed) + counts[5].load(Relaxed), 50);
     }
     ctx.finish(
-        "all 477 K' of Table 2, each with K = K' and K = previous K' + 1 (maximum padding), T in {1,3}, random data; encoder built via new (cached plan) for every K' and via with_encoding_plan(generate), unplanned direct solve with sparse threshold 0 / infinity, and plans generated on either matrix back-end then replayed (all K' in thorough; a stratified subset in quick; dense back-end bounded by dense_routes_bounded_to_K'_at_most); the intermediate symbols read through hook H4 must satisfy every LDPC, HDPC and LT relation of the reference model, and all routes must yield identical intermediate symbols. non-trivial = one (K, route) construction; distinct by (K, route)",
+        "all 477 K' of Table 2, each with K = K' and K = previous K' + 1 (maximum padding), T in {1,3}, random data; encoder built via new (cached plan) for every K' and via with_encoding_plan(generate), unplanned direct solve with sparse threshold 0 / infinity, and plans generated on either matrix back-end then replayed (all K' in thorough; a stratified subset in quick; dense back-end bounded by dense_routes_bounded_to_K'_at_most); the intermediate symbols read through hook H4 must satisfy every LDPC, HDPC and LT relation of the reference model, all routes must yield identical intermediate symbols, and for every table size KS up to object_max an object with blocks of KS+1 and KS symbols is built through Encoder::new (which reuses one plan for consecutive equal-sized blocks) and every block certified. non-trivial = one (K, route) construction; distinct by (K, route)",
         &["reference relations from the harness's RFC model + golden tables", "dense-matrix routes for K' above the stated bound are not run (a dense 57000^2 bit matrix solve is out of budget)"],
         vec![("exhaustive", J::B(done == 477))],
     )
